@@ -125,6 +125,19 @@ def main(argv):
             traceback.print_exc()
             ctx.broken.append(dict(kind="check-crashed", what=repr(e)))
 
+    # 5b. a proof obligation or the correspondence no longer checks but no input shows the property failing yet: SEARCH
+    # the implementation for one (the model cannot be trusted any more; the specification oracle and the metamorphic
+    # checks still can).  Never reached on a tree where everything checks.
+    if (ctx.broken or ctx.disagreements) and not ctx.violations and not a.replay and not any(b["kind"].startswith("build") for b in ctx.broken):
+        search = getattr(mod, "search", None)
+        if search is not None:
+            log("no failing input yet for what no longer checks: searching")
+            try:
+                search(ctx, log)
+            except Exception as e:
+                traceback.print_exc()
+                ctx.broken.append(dict(kind="search-crashed", what=repr(e)))
+
     # 6. verdict
     known = vlib.known_findings()
     rc_final = 0
